@@ -187,8 +187,10 @@ def gen_program(rng, pkg, n=None, p_explicit=0.15, p_hidden=0.12, min_memento=2,
     # variables
     vars_ = []
     for j in range(rng.randint(1, 4)):
-        t = rng.choice(["num", "num", "str", "list", "dict", "date", "tuplist"])
+        t = rng.choice(["num", "num", "str", "list", "dict", "date", "tuplist", "seq"])
         val = {"tuplist": lambda: [rng.randint(0, 5), [rng.randint(0, 5) for _ in range(rng.randint(0, 2))]],  # (k, [..])
+               # a sequence that is a tuple or a list ([kind, items]); the functions that read it tell the two apart
+               "seq": lambda: [rng.choice(["tuple", "list"]), [rng.randint(0, 5) for _ in range(rng.randint(1, 3))]],
                "num": lambda: rng.choice([rng.randint(0, 9), rng.randint(0, 9) + 0.5, True]),
                "str": lambda: "s" * rng.randint(1, 5), "list": lambda: [rng.randint(0, 5) for _ in range(rng.randint(0, 3))],
                "dict": lambda: {"k": rng.randint(0, 9), "z": rng.randint(0, 3)},
@@ -378,12 +380,15 @@ def read_expr(var, form):
     ref = {"attr": "a.", "pattr": "pk."}.get(form, "") + var["name"]
     return {"num": "int(%s * 2)" % ref, "str": "len(%s)" % ref, "list": "sum(%s)" % ref,
             "dict": "(%s[\"k\"] + len(%s))" % (ref, ref), "date": "%s.year" % ref,
-            "tuplist": "(%s[0] + sum(%s[1]) + len(%s[1]))" % (ref, ref, ref)}[var["type"]]
+            "tuplist": "(%s[0] + sum(%s[1]) + len(%s[1]))" % (ref, ref, ref),
+            "seq": "(sum(%s) + (5 if isinstance(%s, tuple) else 0))" % (ref, ref)}[var["type"]]
 
 
 def var_literal(var):
     if var["type"] == "tuplist":
         return repr((var["value"][0], list(var["value"][1])))
+    if var["type"] == "seq":
+        return repr(tuple(var["value"][1]) if var["value"][0] == "tuple" else list(var["value"][1]))
     if var["type"] == "date":
         y, mo, d = var["value"].split("-")
         return "datetime.date(%d, %d, %d)" % (int(y), int(mo), int(d))
@@ -942,6 +947,9 @@ def apply_edit(rng, prog, kind=None, force_var=None):
             elif v["type"] == "dict":
                 v["value"] = dict(v["value"], k=v["value"]["k"] + rng.randint(1, 4))
                 desc["mutation"] = "setitem"
+            elif v["type"] == "seq":  # the same items in the other kind of sequence (now and then other items as well)
+                v["value"] = ["list" if v["value"][0] == "tuple" else "tuple",
+                              list(v["value"][1]) + ([rng.randint(1, 5)] if rng.random() < 0.3 else [])]
             elif v["type"] == "tuplist":  # a tuple holding a list: the list is extended (in place when mutated)
                 v["value"] = [v["value"][0] + (0 if kind == "var_mutate" else 1), list(v["value"][1]) + [rng.randint(1, 5)]]
                 desc["mutation"] = "append to the list inside the tuple"
